@@ -46,6 +46,20 @@ def _cleanup_ext():
         shutil.rmtree(d, ignore_errors=True)
 
 
+def release_ext_package():
+    """remove the most recent package directory (and its sys.path entry) once its modules are imported"""
+    import shutil
+    import sys
+
+    if _ext_dirs:
+        d = _ext_dirs.pop()
+        shutil.rmtree(d, ignore_errors=True)
+        try:
+            sys.path.remove(d)
+        except ValueError:
+            pass
+
+
 def make_ext_package(specs):
     """write a fresh package with modules at depth 1 and depth 3 holding the `ext` classes; returns
     (package name, [dotted reference per class]) WITHOUT importing it"""
@@ -54,7 +68,7 @@ def make_ext_package(specs):
     import sys
     import tempfile
 
-    if not _ext_dirs:
+    if not _ext_uid[0]:
         atexit.register(_cleanup_ext)
     _ext_uid[0] += 1
     root = tempfile.mkdtemp(prefix="ovldverif_ext_")
@@ -125,6 +139,9 @@ class World:
             dts = [Deferred[r] for r in refs]
             m1 = importlib.import_module(f"{pkg}.m1")
             m3 = importlib.import_module(f"{pkg}.sub.deep.m3")
+            # both modules are loaded: the files are no longer needed. Worker processes of the fork pool end
+            # through os._exit, which skips atexit handlers, so the directory is removed here and not at exit
+            release_ext_package()
             for i, sp in enumerate(desc["ext"]):
                 cls = getattr(m1 if sp["mod"] == "shallow" else m3, f"E{i}")
                 self.classes.append(cls)
